@@ -41,7 +41,7 @@ ASSUMPTIONS = [
     '(ref/kin.energy_transfer_reference), configurations with |t - t0| < 100 x bound x (t + t0) are do-not-care',
     'reading chosen (dtype): the contract pinned by the repository tests - result float32 iff the data operand (first argument; '
     'tof and the fixed energy for the inelastic kernels; wavelength for the gravity kernels) is float32, else float64; '
-    'int32 may be refused with scipp DTypeError; kernels that are bare scipp arithmetic on their operands (straight beams, '
+    'int32 operands must be accepted like int64 (until fix 34fb7b5 four energy kernels raised DTypeError for them, which an earlier version of this check had accepted as a scipp limitation); kernels that are bare scipp arithmetic on their operands (straight beams, '
     'L1/L2, total lengths, two_theta, unit vectors, propagate_times, wavelength_to_inverse_velocity) have no pinned dtype '
     'contract: their result dtype is recorded as an outcome class and the value is judged at the precision of that dtype',
     'reading chosen (units): kernels that only add/subtract two operands (straight beams, total lengths) may refuse operands of '
